@@ -107,6 +107,7 @@ func runC10(c *core.Ctx) {
 	c.RuleDoc("R10.4", "directory handle lists the source")
 	c.RuleDoc("R10.5", "a copy that was not written and closed successfully does not stay in the cache")
 	c.RuleDoc("R10.12", "the fill uses no buffer kept in the file system value (= R11.4)")
+	c.RuleDoc("R10.13", "the cache directory handle moves its cursor by exactly the page it returns (= R16.12)")
 	c.RuleDoc("R10.11", "the cache copy is chmod-ed with the source's whole mode")
 	c.RuleDoc("R10.10", "the cache copy is created with the source's mode itself")
 	c.RuleDoc("R10.9", "the fill reads a freshly opened (or rewound) source handle, it is never retried on a handle already read from")
@@ -149,6 +150,7 @@ func runC10(c *core.Ctx) {
 	c.Floor("R10.10", 1)
 	c.Floor("R10.11", 1)
 	c.Floor("R10.12", 1)
+	c.Floor("R10.13", 1)
 	c.Floor("R10.1", 1)
 	c.Floor("R10.2", 1)
 	c.Floor("R10.3", 1)
@@ -280,6 +282,10 @@ func r10Dir(c *core.Ctx, p *load.Program, sh *cacheShape) {
 		})
 		c.Check(ok, "R10.4", "cache.dir.ReadDir|lists-source", p.Pos(fn.Pos()), "entries come from the source file system",
 			"cache.dir.ReadDir does not list through the source file system: the cache only holds the files opened so far, its listing is not the source's")
+	}
+	// R10.13 (= R16.12): the directory handle's cursor moves by the page returned, like the source's handle
+	if fn := ms["ReadDir"]; fn != nil {
+		r16CursorMovesByPage(c, p, "cache.dir", fn, listingSlices(fn), "R10.13")
 	}
 	if fn := ms["Stat"]; fn != nil {
 		ok := false
